@@ -327,6 +327,13 @@ def order(it, op, a, b):
         r = it.call(SBound(um[0], a, um[1]), [b], {})
         if r is not NotImplemented:
             return r
+    # the reflected method of the right operand (data model: a > b falls back to b.__lt__(a) etc.)
+    rname = {"<": "__gt__", "<=": "__ge__", ">": "__lt__", ">=": "__le__"}[op]
+    um = _user_method(it, b, rname)
+    if um is not None:
+        r = it.call(SBound(um[0], b, um[1]), [a], {})
+        if r is not NotImplemented:
+            return r
     if not is_symbolic(a) and not is_symbolic(b):
         try:
             return {"<": lambda: a < b, "<=": lambda: a <= b, ">": lambda: a > b, ">=": lambda: a >= b}[op]()
